@@ -20,14 +20,23 @@ MR = 'fsic.core.models.BaseModel.reindex'
 PR = 'fsic.extensions.model.PandasIndexFeaturesMixin.reindex'
 
 
+def _result_name(f) -> str:
+    """The local that holds the object reindex returns."""
+    rets = f.returns()
+    if len(rets) == 1 and isinstance(rets[0].ast.value, ast.Name):
+        return rets[0].ast.value.id
+    raise Unsupported(f'{f.q}: expected one `return <name>`')
+
+
 def r1_fresh(R) -> None:
     f = Fn(R, VR)
-    ds = f.assigns_to('reindexed')
+    res = _result_name(f)
+    ds = f.assigns_to(res)
     ok = len(ds) == 1 and is_self_call(ds[0].ast.value, 'copy') and not ds[0].ast.value.args
     R.check(ok, VR, 'fresh:' + (text(ds[0].ast.value) if ds else '?'), 'the result starts as self.copy() (deep by C11.R2)',
-            f'`reindexed` is `{text(ds[0].ast.value) if ds else "?"}`, not self.copy()', where=f.fi.where)
+            f'`{res}` is `{text(ds[0].ast.value) if ds else "?"}`, not self.copy()', where=f.fi.where)
     rets = f.returns()
-    R.check(len(rets) == 1 and text(rets[0].ast.value) == 'reindexed', VR, 'returns-new', 'the new object is returned', 'reindex does not return `reindexed`', where=f.fi.where)
+    R.check(len(rets) == 1 and text(rets[0].ast.value) == res, VR, 'returns-new', 'the new object is returned', 'reindex does not return `reindexed`', where=f.fi.where)
     for q in (VR, MR, PR):
         fi = R.repo.func(q)
         ws = direct_writes(fi.node, {'self'})
@@ -106,7 +115,7 @@ def r2_fill_defaults(R) -> None:
         v = stores[0].ast.value
         ok = is_call(v, 'np.full', 'numpy.full') and len(v.args) >= 2 and f.etext(stores[0].id, v.args[0]) == 'len(span)'
         R.check(ok, VR, 'new-array:' + text(v)[:60], 'new series have len(new span) and the chosen fill', f'`{text(v)[:70]}`', where=f.where(stores[0]))
-        R.check(dict_slot(stores[0].ast.targets[0])[0] == 'reindexed', VR, 'new-array-owner', 'the new arrays go into the copy', 'the new array is stored in the original', where=f.where(stores[0]))
+        R.check(dict_slot(stores[0].ast.targets[0])[0] == _result_name(f), VR, 'new-array-owner', 'the new arrays go into the copy', 'the new array is stored in the original', where=f.where(stores[0]))
     # model defaults equal the initial values in ModelInterface.__init__
     g = Fn(R, MR)
     init = R.repo.func('fsic.core.interfaces.ModelInterface.__init__')
@@ -140,13 +149,16 @@ def r2_fill_defaults(R) -> None:
 
 def r3_precedence(R) -> None:
     f = Fn(R, VR)
-    ds = [d for d in f.assigns_to('value') if method_call(d.ast.value, 'get')]
-    if R.require(VR, len(ds), 'value = fill_values.get(name, fill_value)', fi=f.fi, pred=lambda x: method_call(x, 'get')):
-        v = ds[0].ast.value
-        ok = text(v.func.value) == 'fill_values' and [text(a) for a in v.args] == ['name', 'fill_value']
-        R.check(ok, VR, 'precedence:' + text(v), 'per-variable fill, else fill_value, else the dtype default', f'`value = {text(v)}`', where=f.where(ds[0]))
-        lp = [f.cfg.nodes[i] for i in ds[0].loops]
-        R.check(bool(lp) and text(lp[-1].ast.iter) in ('reindexed.index', 'self.index') and text(lp[-1].ast.target) == 'name', VR, 'every-variable',
+    res = _result_name(f)
+    gets = f.nodes_with(lambda x: method_call(x, 'get') and text(x.func.value) == 'fill_values')
+    if R.require(VR, len(gets), 'value = fill_values.get(name, fill_value)', fi=f.fi, pred=lambda x: method_call(x, 'get')):
+        v = [x for x in ast.walk(gets[0].ast) if method_call(x, 'get') and text(x.func.value) == 'fill_values'][0]
+        lp = [f.cfg.nodes[i] for i in gets[0].loops]
+        tv = text(lp[-1].ast.target) if lp else '?'
+        ok = [text(a) for a in v.args] == [tv, 'fill_value']
+        R.check(ok, VR, 'precedence:' + text(v), 'per-variable fill, else fill_value, else the dtype default', f'the fill is looked up as `{text(v)}`', where=f.where(gets[0]))
+        R.check(bool(lp) and f.etext(lp[-1].id, lp[-1].ast.iter, stop=(res,)) in (f'{res}.index', 'self.index', f"{res}.__dict__['index']", "self.__dict__['index']")
+                and isinstance(lp[-1].ast.target, ast.Name), VR, 'every-variable',
                 'every variable of the container is rebuilt', 'the rebuild loop does not iterate the container index', where=f.fi.where)
 
 
@@ -176,9 +188,10 @@ def r4_strict(R) -> None:
 def r5_position_map(R) -> None:
     from fsa.match import nnf_atoms
     f = Fn(R, VR)
+    res = _result_name(f)
     # consumption first: `for new, old in <map>.items(): reindexed[name][new] = self[name][old]` names the map
     cp = [m for m in f.cfg.nodes if m.kind == 'stmt' and isinstance(m.ast, ast.Assign) and isinstance(m.ast.targets[0], ast.Subscript)
-          and isinstance(m.ast.targets[0].value, ast.Subscript) and text(m.ast.targets[0].value.value) == 'reindexed']
+          and isinstance(m.ast.targets[0].value, ast.Subscript) and text(m.ast.targets[0].value.value) == res]
     pmap = 'positions'
     if cp and cp[0].loops:
         it = f.cfg.nodes[cp[0].loops[-1]].ast.iter
@@ -203,20 +216,22 @@ def r5_position_map(R) -> None:
     R.check(len(tg) == 2 and conds == [(f'{tg[1]} in self.span', True)], VR, 'map-only-shared', 'only labels present in the old span are mapped', f'guard is {conds}', where=f.fi.where)
     # consumption: reindexed[name][new] = self[name][old] for new, old in positions.items()
     cp = [m for m in f.cfg.nodes if m.kind == 'stmt' and isinstance(m.ast, ast.Assign) and isinstance(m.ast.targets[0], ast.Subscript)
-          and isinstance(m.ast.targets[0].value, ast.Subscript) and text(m.ast.targets[0].value.value) == 'reindexed']
-    if R.require(VR, len(cp), 'reindexed[name][new] = self[name][old]', fi=f.fi, pred=lambda x: isinstance(x, ast.Subscript) and text(x.value) == 'reindexed[name]'):
+          and isinstance(m.ast.targets[0].value, ast.Subscript) and text(m.ast.targets[0].value.value) == res]
+    if R.require(VR, len(cp), 'reindexed[name][new] = self[name][old]', fi=f.fi, pred=lambda x: isinstance(x, ast.Subscript) and isinstance(x.value, ast.Subscript) and text(x.value.value) == res):
         m = cp[0]
         lp2 = [f.cfg.nodes[i] for i in m.loops]
         ok = bool(lp2) and text(lp2[-1].ast.iter) == f'{pmap}.items()'
         kv = [x.id for x in ast.walk(lp2[-1].ast.target) if isinstance(x, ast.Name)] if lp2 else []
         v = m.ast.value
-        ok = ok and len(kv) == 2 and text(m.ast.targets[0].slice) == kv[0] and isinstance(v, ast.Subscript) and text(v.value) == 'self[name]' and text(v.slice) == kv[1] \
-            and text(m.ast.targets[0].value.slice) == 'name'
+        nm_ = text(m.ast.targets[0].value.slice)
+        ok = ok and len(kv) == 2 and text(m.ast.targets[0].slice) == kv[0] and isinstance(v, ast.Subscript) \
+            and f.etext(m.id, v.value, stop=(nm_,)) in (f'self[{nm_}]', f"self.__dict__['_' + {nm_}]") \
+            and text(v.slice) == kv[1] and len(lp2) >= 2 and text(lp2[-2].ast.target) == nm_
         R.check(ok, VR, 'map-consume:' + text(m.ast), 'values are copied new <- old through the map (no crossing)',
                 f'`{text(m.ast)}` with `for {text(lp2[-1].ast.target) if lp2 else "?"} in positions.items()` crosses or misuses the position map', where=f.where(m))
     # span of the result
     sp = [x for x in f.cfg.nodes if x.kind == 'stmt' and isinstance(x.ast, ast.Assign) and dict_slot(x.ast.targets[0]) is not None and is_const(dict_slot(x.ast.targets[0])[1], 'span')]
-    ok = len(sp) == 1 and dict_slot(sp[0].ast.targets[0])[0] == 'reindexed' and text(sp[0].ast.value) == 'span'
+    ok = len(sp) == 1 and dict_slot(sp[0].ast.targets[0])[0] == res and text(sp[0].ast.value) == (f.fi.params() + ['span'])[1]
     R.check(ok, VR, 'new-span', 'the result carries the new span', "`reindexed.__dict__['span'] = span` not found", where=f.fi.where)
 
 
